@@ -189,6 +189,16 @@ def apply_node_op(node, op):
             node.yaml_node.value.append(node.yaml_node.value[0])
     elif k == 'get_attr':             # a savorize that reads an attribute (SeasoningError when absent)
         node.get_attribute(op[1])
+    elif k == 'stamp':
+        # C10: leave a visible mark of this call on the mapping: the n-th stamp of its family (s_ / w_) gets the
+        # value n; a second call of the same hook on the same node adds 100
+        if node.is_mapping():
+            name = op[1]
+            if node.has_attribute(name):
+                node.set_attribute(name, node.get_attribute(name).get_value() + 100)
+            else:
+                n = sum(1 for kn, _ in node.yaml_node.value if str(kn.value).startswith(name[:2]))
+                node.set_attribute(name, n + 1)
     elif k == 'raise':
         raise_exc(op[1], 'boom from hook')
     else:
